@@ -200,6 +200,10 @@ EXPECT = {
 }
 
 
+# private functions of relation/sql.rs that rules anchor on by name: never inlined by the canonical form
+CANON_KEEP = {"ctes_from_query", "select_from_query", "table_with_joins", "all"}
+
+
 def e7_e8(rep, src):
     rep.rule(
         "E7",
@@ -218,7 +222,9 @@ def e7_e8(rep, src):
     for nm in ("map", "reduce", "join", "set"):
         if nm not in fns:
             raise Anchor("FromRelationVisitor::%s not found" % nm)
-        f = fns[nm]
+        from .canon import canon_view
+
+        f = canon_view(fns[nm], src, keep=CANON_KEEP)  # named locals (`let cte_name = ..`) and extracted private helpers are transparent
         node = [p["pat"]["name"] for p in f.params if not p.get("self") and p["pat"]["k"] == "ident"][0]
         key = "FromRelationVisitor::" + nm
         ctes = [m for m in find(f.body, "mcall") if m["m"] == "cte" and len(m["args"]) == 3]
@@ -491,19 +497,62 @@ def e13(rep, src):
         floor=4,
         necessary="a WITH clause that defines the same name twice is rejected by every target engine; adjacent-only de-duplication (Vec::dedup) misses [X, A] ++ [X, B]",
     )
+    def set_names(body):
+        out = {}
+        for l in find(body, "let"):
+            p = l["pat"]
+            nm = p["name"] if p["k"] == "ident" else (p["pat"]["name"] if p["k"] == "typed" and p["pat"]["k"] == "ident" else None)
+            t = (show(p.get("ty"), 0) if isinstance(p.get("ty"), dict) else str(p.get("ty") or "")) + " " + (show(l["init"], 0) if l.get("init") else "")
+            if nm and ("HashSet" in t or "BTreeSet" in t):
+                out[nm] = l
+        return out
+
+    def guarded_push(body, sets):
+        """name of the set whose `.insert(..)` guards a `.push(..)` in body, else None"""
+        for x, guards in walk_guards(body):
+            if x["k"] == "mcall" and x["m"] == "push":
+                for g in guards:
+                    if g[0] == "if" and g[2] is True and g[1]["k"] == "mcall" and g[1]["m"] == "insert" and path_of(g[1]["recv"]) in sets:
+                        return path_of(g[1]["recv"])
+        return None
+
+    def merged_by(body, is_source, depth=0):
+        """How the sequence denoted by `is_source(expr)` enters a list in `body`: (set name | '<unique>', description) or (None, None)."""
+        sets = set_names(body)
+        for m in find(body, "mcall"):
+            if m["m"] == "for_each" and any(is_source(x) for x in walk(m["recv"])) and m["args"] and m["args"][0]["k"] == "closure":
+                g = guarded_push(m["args"][0]["body"], sets)
+                if g:
+                    return g, "push under if %s.insert(..)" % g
+            if m["m"] == "unique" and any(is_source(x) for x in walk(m["recv"])):
+                return "<unique>", "itertools unique()"
+        for lp in find(body, "for"):
+            if any(is_source(x) for x in walk(lp["e"])):
+                g = guarded_push(lp["body"], sets)
+                if g:
+                    return g, "for-loop push under if %s.insert(..)" % g
+        # the sequence is handed to a private helper of the same file that merges its parameters
+        if depth < 2:
+            for c in find(body, "call"):
+                pth = path_of(c["f"]) or ""
+                hs = [h for h in src.find_fns(name=pth.split("::")[-1], file="relation/sql.rs") if not h.self_ty and h.body and (h.node.get("vis") or "") == ""] if pth and "::" not in pth else []
+                if len(hs) != 1:
+                    continue
+                h = hs[0]
+                for i, a in enumerate(c["args"]):
+                    if any(is_source(x) for x in walk(a)) and i < len(h.params) and h.params[i]["pat"]["k"] == "ident":
+                        pn = h.params[i]["pat"]["name"]
+                        g, how = merged_by(h.body, lambda x, pn=pn: x["k"] == "path" and x.get("segs") == [pn], depth + 1)
+                        if g:
+                            return "%s::%s" % (h.name, g), "helper %s: %s" % (h.name, how)
+        return None, None
+
     for name in ("join", "set"):
         fs = [f for f in src.find_fns(name=name, file="relation/sql.rs") if "FromRelationVisitor" in (f.self_ty or "")]
         if len(fs) != 1:
             rep.undecidable("E13", "FromRelationVisitor::" + name, "expected one visitor method, found %d" % len(fs), "src/relation/sql.rs")
             continue
         f = fs[0]
-        sets = {}
-        for l in find(f.body, "let"):
-            p = l["pat"]
-            nm = p["name"] if p["k"] == "ident" else (p["pat"]["name"] if p["k"] == "typed" and p["pat"]["k"] == "ident" else None)
-            t = (show(p.get("ty"), 0) if isinstance(p.get("ty"), dict) else str(p.get("ty") or "")) + " " + (show(l["init"], 0) if l.get("init") else "")
-            if nm and ("HashSet" in t or "BTreeSet" in t):
-                sets[nm] = l
         sources = [c for c in find(f.body, "call") if is_call_to(c, "ctes_from_query")]
         used_sets = set()
         for side in ("left", "right"):
@@ -513,19 +562,7 @@ def e13(rep, src):
                 rep.undecidable("E13", key, "expected one ctes_from_query(%s), found %d" % (side, len(cs)), f.where())
                 continue
             c = cs[0]
-            # the consumer chain containing this call
-            guard_set = None
-            how = None
-            for m in find(f.body, "mcall"):
-                if m["m"] == "for_each" and any(x is c for x in walk(m["recv"])) and m["args"] and m["args"][0]["k"] == "closure":
-                    for x, guards in walk_guards(m["args"][0]["body"]):
-                        if x["k"] == "mcall" and x["m"] == "push":
-                            for g in guards:
-                                if g[0] == "if" and g[2] is True and g[1]["k"] == "mcall" and g[1]["m"] == "insert" and path_of(g[1]["recv"]) in sets:
-                                    guard_set = path_of(g[1]["recv"])
-                                    how = "push under if %s.insert(..)" % guard_set
-                if m["m"] == "unique" and any(x is c for x in walk(m["recv"])):
-                    guard_set, how = "<unique>", "itertools unique()"
+            guard_set, how = merged_by(f.body, lambda x, c=c: x is c)
             rep.instance("E13", key, {"visitor": name, "input": side, "merged_by": how})
             if guard_set is None:
                 dd = [m for m in find(f.body, "mcall") if m["m"] in ("dedup", "dedup_by", "dedup_by_key")]
@@ -554,7 +591,10 @@ def e14(rep, src):
             if l["pat"]["k"] == "ident" and l.get("init") is not None:
                 ints[l["pat"]["name"]] = l["init"]
         fmts = [m for m in find(f.body, "macro") if m.get("name", "").split("::")[-1] == "format"]
-        other = [show(c, 60) for c in find(f.body, "mcall") if c["m"] in ("to_string", "to_owned") and c["recv"]["k"] != "macro"]
+        fparam = [p["pat"]["name"] for p in f.params if not p.get("self") and p["pat"]["k"] == "ident" and p["ty"].replace(" ", "") == "f64"]
+        # `v.to_string()` on the f64 parameter itself is `format!("{}", v)` (Display of f64: shortest round-trip)
+        other = [show(c, 60) for c in find(f.body, "mcall") if c["m"] in ("to_string", "to_owned") and c["recv"]["k"] != "macro" and not (c["m"] == "to_string" and path_of(c["recv"]) in fparam)]
+        exact_display = [c for c in find(f.body, "mcall") if c["m"] == "to_string" and path_of(c["recv"]) in fparam]
         bad, seen = [], []
         for m in fmts:
             a = m.get("args") or []
@@ -563,9 +603,9 @@ def e14(rep, src):
                 continue
             fmt = a[0]["v"]
             seen.append(fmt)
-            if fmt == "{}":
+            if fmt == "{}" or (re.match(r"^\{(\w+)\}$", fmt) and re.match(r"^\{(\w+)\}$", fmt).group(1) in fparam):
                 continue
-            mm = re.match(r"^\{:\.(\d+|\w+\$)e\}$", fmt)
+            mm = re.match(r"^\{(?:\w+)?:\.(\d+|\w+\$)e\}$", fmt)  # `{:.Ne}`, `{:.prec$e}`, inline `{value:.prec$e}`
             if not mm:
                 bad.append("format string %r" % fmt)
                 continue
@@ -597,10 +637,10 @@ def e14(rep, src):
                 bad.append("precision of %r not readable" % fmt)
             elif val < 16:
                 bad.append("%r with precision %d: only %d significant digits" % (fmt, val, val + 1))
-        rep.instance("E14", key, {"translator": who, "formats": seen, "other_renderings": other})
+        rep.instance("E14", key, {"translator": who, "formats": seen + ["{}"] * len(exact_display), "other_renderings": other})
         if other:
             rep.violation("E14", key, "the literal is produced by %s, not by an exact float format" % other, f.where())
-        if not fmts and not other:
+        if not fmts and not other and not exact_display:
             rep.undecidable("E14", key, "no format! found", f.where())
         for b in bad:
             rep.violation("E14", key, "float literal rendered with %s" % b, f.where())
